@@ -1,42 +1,58 @@
 /-
 C16 — the XGo scanner agrees with go/scanner on Go lexemes.
 
-Statement (full strength), over the scanner model M1 with dialects `xgo` (scanner/scanner.go)
-and `go` (go/scanner of the toolchain, Go 1.23):
+Over the scanner model M1 with dialects `xgo` (scanner/scanner.go) and `go` (go/scanner of the
+toolchain, Go 1.23), FULL on the decidable domain `goLexemesOnly` (Model/ScanDomain.lean):
 
-    theorem xgo_eq_go (U : UCls) (src : Array UInt8) (comments noSemis : Bool) :
-        goLexemesOnly U comments noSemis src = true →
-        agree16 (scan ⟨.xgo, comments, noSemis, U⟩ src) (scan ⟨.go, comments, noSemis, U⟩ src) = true
+    theorem C16_xgo_eq_go : goLexemesOnly U comments noSemis src = true →
+        scan ⟨.xgo, comments, noSemis, U⟩ src = scan ⟨.go, comments, noSemis, U⟩ src
 
-(`agree16`: both runs finish; same tokens — offset, kind, literal, including inserted semicolons
-— and the same error-handler calls — offset and message — in the same order; `goLexemesOnly`:
-Model/ScanDomain.lean).
+for every byte string `src`, every classification `U` of non-ASCII letters/digits and every
+scanning mode: the two runs return the same tokens (offset, end, numeric kind, literal — inserted
+semicolons included), the same error-handler calls (offset and message) in the same order, and
+the same status; `C16_agree` restates it with `agree16`, `C16_token_tables_embed` shows that equal
+numeric kinds are the same tokens of the two token packages.
 
-PARTIAL.  What is proved here, for the tables REGENERATED on every run:
-  * `C16_token_tables_embed`, `C16_keywords_equal`: every token of go/token has the same value and
-    spelling in the XGo token package, the keyword tables coincide — so "same kind" is equality
-    of the numeric token values;
-  * `C16_switch_agrees`: the operator decision tries of the two `Scan` functions are identical
-    except for the first bytes `- < = ! ( ) ? $ #`, where XGo adds `->`, `<>`, `=>`, the
-    semicolon-inserting `!`, the parenthesis counter, `?`, `$`; and `C16_switch_differences`
-    pins each of those differences: the only additional leaves are the XGo-only tokens, and the
-    only flag difference on a Go token is `insertSemi` after `!`;
-  * the three by-design deviations really are deviations (`C16_bang_newline_differs`,
-    `C16_ellipsis_newline_differs`, `C16_semicolon_order_differs`: concrete witnesses, also
-    replayed on the real scanners by the harness) and are outside the domain;
-  * `C16_domain_examples`: the domain is not empty / not trivial (it contains sources with
-    comments, all literal kinds, errors).
-The general statement `xgo_eq_go` is NOT proved in Lean; it is checked by the differential run
-(harness/cmd/c16): the model's domain decision and the model's `agree16` are compared with the
-real go/scanner and the real XGo scanner on every generated input, and every in-domain input
-on which the real scanners differ is reported as a violation.
+The domain is evaluated on the go model's own run in the compared mode (`goRunOK`): every pass
+through `Scan` must return a token that is not ILLEGAL, not a number directly followed by a
+letter (imaginary: letter or digit), not `c`/`C`/`py` directly followed by `"`, not `-`/`=`/`<`
+directly followed by `>`, not `!`/`...` followed (after blanks) by a line end or a comment; and no
+comment may begin while a semicolon is pending.  The last three exclusions are the by-design /
+inherited deviations (known findings), each shown to be a real difference by a witness below.
+
+Proof: `Lemmas/ScanCongr.lean` (no sub-scanner reads or writes `nParen`/`insertSemi`),
+`Lemmas/ScanC16a…e.lean` (relation `R16` between the two states — equal up to `nParen`, and up to
+`insertSemi` right after `!`/`...` when no line end or comment follows; one pass through `Scan`
+preserves it and returns equal tokens: `step16`; the loops run in lockstep: `lockstep16`), on top
+of C15's invariants.  The operator switches are compared through the regenerated tries
+(`switch_agrees16`, `switch_explicit16`).
 -/
-import GopModel.Model.ScanDomain
+import GopModel.Lemmas.ScanC16e
 namespace GopModel.Scan.C16
 open GopModel.Generated GopModel.Scan
 
 def noU : UCls := { isLetter := fun _ => false, isDigit := fun _ => false }
 def cfg (d : Dialect) (comments : Bool) : Cfg := { d := d, comments := comments, noSemis := false, U := noU }
+
+/-- **C16** (on the model, FULL on the domain): for every source in `goLexemesOnly` the XGo scanner
+and go/scanner return the same result — tokens with offsets, ends, kinds and literals including
+inserted semicolons, error-handler calls with offsets and messages in order, status. -/
+theorem C16_xgo_eq_go (U : UCls) (comments noSemis : Bool) (src : Array UInt8)
+    (h : goLexemesOnly U comments noSemis src = true) :
+    scan { d := .xgo, comments := comments, noSemis := noSemis, U := U } src =
+      scan { d := .go, comments := comments, noSemis := noSemis, U := U } src :=
+  scan_xgo_eq_go U comments noSemis src h
+
+/-- the same with the comparison the harness evaluates on the real scanners; both runs finish -/
+theorem C16_agree (U : UCls) (comments noSemis : Bool) (src : Array UInt8)
+    (h : goLexemesOnly U comments noSemis src = true) :
+    agree16 (scan { d := .xgo, comments := comments, noSemis := noSemis, U := U } src)
+      (scan { d := .go, comments := comments, noSemis := noSemis, U := U } src) = true := by
+  have he := C16_xgo_eq_go U comments noSemis src h
+  have hd := scan_done { d := .xgo, comments := comments, noSemis := noSemis, U := U } (by simp) src
+  rw [← he]
+  unfold agree16
+  simp [hd]
 
 /-- every token of go/token has the same numeric value and spelling in the XGo token package -/
 theorem C16_token_tables_embed :
@@ -126,6 +142,15 @@ theorem C16_semicolon_order_differs :
     agree16 (scan (cfg .xgo true) srcSemiOrder) (scan (cfg .go true) srcSemiOrder) = false ∧
     agree16 (scan (cfg .xgo false) srcSemiOrder) (scan (cfg .go false) srcSemiOrder) = false ∧
     goLexemesOnly noU true false srcSemiOrder = false ∧ goLexemesOnly noU false false srcSemiOrder = false := by decide +kernel
+
+/-- a comment behind an operand, no line end behind it, with a NUL inside: the XGo scanner reads
+the comment twice (look-ahead of `findLineEnd`, then `scanComment`) and reports the NUL twice -/
+def srcLookahead : Array UInt8 := #[0x78, 0x20, 0x2F, 0x2A, 0x00, 0x2A, 0x2F, 0x20, 0x79]   -- "x /*\0*/ y"
+
+theorem C16_lookahead_error_twice :
+    ((scan (cfg .xgo true) srcLookahead).toks == (scan (cfg .go true) srcLookahead).toks) = true ∧
+    (scan (cfg .xgo true) srcLookahead).errs.length = 2 ∧ (scan (cfg .go true) srcLookahead).errs.length = 1 ∧
+    goLexemesOnly noU true false srcLookahead = false := by decide +kernel
 
 /-! ## The domain is not trivial: members with comments, literals of every kind, errors -/
 
